@@ -74,7 +74,7 @@ from types import TracebackType
 from typing import BinaryIO
 
 from dulwich.object_format import SHA1
-from dulwich.objects import ObjectID
+from dulwich.objects import ZERO_SHA, ObjectID
 from dulwich.refs import (
     SYMREF,
     Ref,
@@ -1174,14 +1174,16 @@ class ReftableRefsContainer(RefsContainer):
         """Atomically set a ref if it currently equals old_ref."""
         # For now, implement a simple non-atomic version
         # TODO: Implement proper atomic compare-and-swap
-        try:
-            current = self.read_loose_ref(name)
-        except KeyError:
-            current = None
+        if old_ref is not None:
+            # None means "set unconditionally", the zero id "must not exist"
+            try:
+                current = self.read_loose_ref(name)
+            except KeyError:
+                current = None
 
-        old_ref_bytes = bytes(old_ref) if old_ref else None
-        if current != old_ref_bytes:
-            return False
+            expected = None if old_ref == ZERO_SHA else bytes(old_ref)
+            if current != expected:
+                return False
 
         # Update ref
         self._write_ref_update(bytes(name), REF_VALUE_REF, bytes(new_ref))
@@ -1217,14 +1219,16 @@ class ReftableRefsContainer(RefsContainer):
     ) -> bool:
         """Remove a ref if it equals old_ref."""
         # For deletion, we need to use the internal method since set_if_equals requires new_ref
-        try:
-            current = self.read_loose_ref(name)
-        except KeyError:
-            current = None
+        if old_ref is not None:
+            # None means "remove unconditionally"
+            try:
+                current = self.read_loose_ref(name)
+            except KeyError:
+                current = None
 
-        old_ref_bytes = bytes(old_ref) if old_ref else None
-        if current != old_ref_bytes:
-            return False
+            expected = None if old_ref == ZERO_SHA else bytes(old_ref)
+            if current != expected:
+                return False
 
         self._write_ref_update(bytes(name), REF_VALUE_DELETE, b"")
         return True
